@@ -30,13 +30,30 @@ func (c22) Describe() engine.Info {
 		Rule: "scenario = 50..400 events over {key down/up for each of the 8 keys (delivered through the simulated display), JOYP write of any value, JOYP read} 0..200 cycles apart. Oracle: reference joypad (bits 6-7 read 1, bits 4-5 as last written, low nibble = AND of the selected groups' lines, all 1s when none is selected, pressing a direction releases its opposite). Signature = reached controller state (select bits, direction lines, button lines): the reachable space has 4 x 9 x 16 = 576 states." +
 			" A third of the walks also start DMA transfers and switch LCD, sound and timer while JOYP is polled.",
 		Assumptions:    []string{"breadth-first enumeration named in the quantifier is model checking; random walks are used instead and the number of distinct states reached is reported", "the joypad interrupt is never raised by this emulator and is not part of the statement"},
-		RequiredProbes: []string{"both_groups_selected_read", "opposite_direction_pressed", "no_group_selected_read", "dma_started_during_the_walk"},
+		RequiredProbes: []string{"both_groups_selected_read", "opposite_direction_pressed", "no_group_selected_read", "dma_started_during_the_walk", "more_than_16_key_events_between_reads", "read_after_a_minute_of_holding"},
 		RealComponents: realComponents, StubComponents: stubComponents,
 	}
 }
 
 func (c22) Generate(r *engine.Rand, index int, tier string) *engine.Scenario {
 	sc := &engine.Scenario{Cart: simpleRom(), Class: "walk", Video: true}
+	if index == 7 || (tier == "thorough" && index%500 == 7) {
+		// a key held for more than a minute of emulated time with nothing else happening, polled rarely
+		sc.Class = "long-hold"
+		sc.Events = append(sc.Events, engine.Event{At: 10, K: "bus_w", A: 0xff00, V: engine.Pick(r, []uint8{0x10, 0x20, 0x00})})
+		sc.Events = append(sc.Events, engine.Event{At: 20, K: "key", A: uint16(r.Intn(8)), V: 1})
+		sc.Events = append(sc.Events, engine.Event{At: 30, K: "key", A: uint16(r.Intn(8)), V: 1})
+		for at := uint64(1 << 20); at < 70<<20; at += 1 << 22 {
+			sc.Events = append(sc.Events, engine.Event{At: at + uint64(r.Intn(1000)), K: "bus_r", A: 0xff00})
+		}
+		sc.Cycles = 70<<20 + 16
+		return sc
+	}
+	burst := index%4 == 2 // key events come in bursts and JOYP is only looked at by explicit reads
+	if burst {
+		sc.Class = "walk-bursts"
+		sc.SetP("sparse", 1)
+	}
 	at := uint64(1)
 	for i, n := 0, r.Range(50, 400); i < n; i++ {
 		at += uint64(r.Intn(5))
@@ -54,6 +71,12 @@ func (c22) Generate(r *engine.Rand, index int, tier string) *engine.Scenario {
 			sc.Events = append(sc.Events, engine.Event{At: at, K: "bus_w", A: 0xff00, V: v})
 		default:
 			sc.Events = append(sc.Events, engine.Event{At: at, K: "bus_r", A: 0xff00})
+		}
+		if burst && r.Chance(1, 8) {
+			for j, k := 0, r.Range(12, 70); j < k; j++ {
+				at += uint64(r.Intn(3))
+				sc.Events = append(sc.Events, engine.Event{At: at, K: "key", A: uint16(r.Intn(8)), V: uint8(r.Intn(2))})
+			}
 		}
 		if index%3 == 1 && r.Chance(1, 12) {
 			// the rest of the machine is busy: an OAM DMA transfer in flight, the LCD or the sound unit
@@ -139,6 +162,7 @@ func (c22) Execute(sc *engine.Scenario) *engine.Result {
 	}
 	ei := 0
 	ok := true
+	sinceRead := 0
 	for m.N < sc.Cycles && ok {
 		for ei < len(sc.Events) && sc.Events[ei].At <= m.N && ok {
 			ev := sc.Events[ei]
@@ -148,7 +172,14 @@ func (c22) Execute(sc *engine.Scenario) *engine.Result {
 				m.Key(controllerButton(int(ev.A)), ev.V != 0)
 				press(int(ev.A&7), ev.V != 0)
 				res.Fault("key_event")
-				ok = check(fmt.Sprintf("key %d down=%v", ev.A, ev.V != 0))
+				if sc.P("sparse", 0) == 0 && sc.Class != "long-hold" {
+					ok = check(fmt.Sprintf("key %d down=%v", ev.A, ev.V != 0))
+				} else {
+					sinceRead++
+					if sinceRead > 16 {
+						res.Probe("more_than_16_key_events_between_reads")
+					}
+				}
 			case "bus_w":
 				if ev.A != 0xff00 {
 					m.Write(ev.A, ev.V)
@@ -164,6 +195,10 @@ func (c22) Execute(sc *engine.Scenario) *engine.Result {
 				res.Fault("joyp_write")
 				ok = check("JOYP write")
 			case "bus_r":
+				sinceRead = 0
+				if m.N > 1<<26 {
+					res.Probe("read_after_a_minute_of_holding")
+				}
 				ok = check("read")
 			}
 		}
